@@ -125,8 +125,9 @@ Fixpoint sign_loop (fuel : nat) (ctest : bool) (P : Params) (sk : PrivateKey) (c
       | Some x => Ok x
       | None =>
           _ <- guard (lz P <? 65536) "cannot fail; L is static parameter" ;;
-          _ <- guard (kappa + lz P <? 65536) "u16 add overflow" ;;
-          sign_loop f ctest P sk cap_a_hat mu rho_prime (kappa + lz P)
+          (* ensure!(kappa_ctr <= u16::MAX - 2*L, "ML-DSA.Sign: rejection loop limit exceeded") *)
+          if kappa <=? 65535 - 2 * lz P then sign_loop f ctest P sk cap_a_hat mu rho_prime (kappa + lz P)
+          else Err LoopLimit
       end
   end.
 
